@@ -86,3 +86,11 @@ def cases(tier, seed, ctx=None):
             yield ("tls", [5, cfg, rq], "unwelcome-tls-client")
     # a response of several MiB that is closed at once (most of it still pending at close()): the same bytes over TLS as over plain TCP
     yield ("tls", [1, b"GET /big HTTP/1.1\r\nHost: h\r\n\r\n", 5], "big-response")
+
+    # requests the library refuses, followed by more bytes that reach the server in the SAME read: as a second TLS
+    # record sent back to back, and as one write of several KiB (decrypted in several steps); TLS and plain must answer alike
+    for j, h in enumerate([b"BOGUS", b"GET / HTTP/1.2", b"GET //[::1/x HTTP/1.1\r\nHost: h", b"GET  / HTTP/1.1\r\nHost: h", b"PATCH /x HTTP/1.0"]):
+        tail = rng.choice([b"GET /second HTTP/1.1\r\nHost: h\r\n\r\n", b"x" * 200])
+        yield ("tls", [1, h + b"\r\n\r\n" + tail, len(h) + 4, -1], "%srefused-then-second-record" % 'over-tls-')
+        big = (b"GET /again HTTP/1.1\r\nHost: h\r\n\r\n" + b"junk " * 40) * rng.choice([30, 90])
+        yield ("tls", [1, h + b"\r\n\r\n" + big, rng.choice([0, len(h) + 4, 3]), rng.choice([-1, 15])], "%srefused-then-several-KiB" % 'over-tls-')
